@@ -684,14 +684,15 @@ static inline bool LPFhasKeyword(char*& pos, const char* keyword)
       {
          i++;
 
-         // Here we assumed that we have a ']' for the '['.
-         while((tolower(pos[k]) == keyword[i]) && (pos[k] != '\0'))
+         // Here we assumed that we have a ']' for the '['.  The input may match the optional part only up to its
+         // closing bracket: a ']' in the input must not be taken for the one of the keyword.
+         while((keyword[i] != ']') && (tolower(pos[k]) == keyword[i]) && (pos[k] != '\0'))
          {
             k++;
             i++;
          }
 
-         while(keyword[i] != ']')
+         while((keyword[i] != ']') && (keyword[i] != '\0'))
             i++;
 
          --k;
